@@ -45,9 +45,19 @@ def jobs(tier: str):
     max_facts = 4 if tier == "quick" else 4
     oracle = orc("voc", costs=True, multiset=True)
 
+    core = ["q(X,Y,Z)", "r(X,W)", "t(E)", "not s(Y,E)", "Y < Z", "u(Z) : v(Z,Y)", "u(W) : v(Z,V)", "u(V) : v(V,Y)",
+            "1 <= #sum { 1,V : v(V,Y) }", "r(Y,K)"]
+
+    def bodies():
+        yield from subsets(MENU, kmin, kmax)
+        if kmax < 4:
+            yield from subsets(core, 4, 4)
+        yield from (c + ("u(W) : v(Z,V)",) for c in subsets(MENU[:6], 3, 3))
+        yield from (c + ("r(Y,K)", "u(K) : v(Z,V)") for c in subsets(MENU[:6], 2, 2))
+
     def gen():
-        for hname, head in HEADS:
-            for lits in subsets(MENU, kmin, kmax):
+        for hname, head in HEADS + [("h3", "h(X,W,K)")]:
+            for lits in bodies():
                 body = "; ".join(lits)
                 sep = " :- " if head else ":- "
                 prog = f"{head}{sep}{body}."
